@@ -64,7 +64,7 @@ def tables(bs):
 
 
 def registry(bs=16, state=None, buf='bytes|memoryview', out='none|bytearray'):
-    reg = cmac.registry(bs, None)
+    reg = cmac.registry(bs, None, field_types={'_update_after_digest': ('const', False)})      # CMAC.new(...) without update_after_digest
     BS = str(bs)
     INV, TAG_NOW = tables(bs)
     TAG = '(self._mac_tag if self._mac_tag is not None else %s)' % TAG_NOW
@@ -189,10 +189,14 @@ PERMITTED = {'update': ['init'], 'encrypt': ['init', 'encrypting'], 'decrypt': [
              'digest': ['init', 'encrypting', 'digested'], 'verify': ['init', 'decrypting', 'verified']}
 
 
-def _reg_with(target, params, *args):
+def _reg_with(target, params, *args, lean=False):
     reg = registry(*args)
     c = reg.contracts[target]
     c.params = dict(c.params, **params)
+    if lean:
+        # a forbidden call: every path is the immediate TypeError; proved for ARBITRARY objects (no invariant assumed at all)
+        c.requires = []
+        c.options = dict(c.options, assume_valid=False)
     return reg
 
 
@@ -209,7 +213,7 @@ def units(prop, tier):
     def u(meth, state, bs=16, b='bytes', tag=''):
         params = {ARG[meth]: b} if meth in ARG else {}
         uid = 'eax.%s%s%s@bs%d/%s' % (meth, ('[%s]' % b) if meth in ARG else '', tag, bs, state)
-        out.append(pyvc_unit(prop, uid, functools.partial(_reg_with, m(meth), params, bs, _st(state)), [m(meth)]))
+        out.append(pyvc_unit(prop, uid, functools.partial(_reg_with, m(meth), params, bs, _st(state), lean=(tag == '[forbidden]')), [m(meth)]))
 
     def init(bs, b):
         out.append(pyvc_unit(prop, 'eax.__init__[nonce:%s]@bs%d' % (b, bs), functools.partial(_reg_with, m('__init__'), {'nonce': b}, bs), [m('__init__')]))
